@@ -439,6 +439,25 @@ pub fn unb64(s: &str) -> Option<Vec<u8>> {
     Some(out)
 }
 
+/// canonical unpadded base64url only: no dangling character (length 1 mod 4), unused low bits of the last character zero
+pub fn unb64_strict(s: &str) -> Option<Vec<u8>> {
+    let out = unb64(s)?;
+    if b64(&out) == s { Some(out) } else { None }
+}
+
+/// `token_parts` with the canonical decoder: a text that is not the canonical spelling of its bytes yields None
+pub fn token_parts_strict(tok: &str) -> Option<(Vec<u8>, Vec<u8>)> {
+    let mut it = tok.splitn(4, '.');
+    let _v = it.next()?;
+    let _p = it.next()?;
+    let payload = unb64_strict(it.next()?)?;
+    let footer = match it.next() {
+        Some(f) => unb64_strict(f)?,
+        None => vec![],
+    };
+    Some((payload, footer))
+}
+
 /// split "vN.purpose.payload[.footer]" into (payload bytes, footer bytes)
 pub fn token_parts(tok: &str) -> Option<(Vec<u8>, Vec<u8>)> {
     let mut it = tok.splitn(4, '.');
